@@ -338,9 +338,10 @@ class Result:
         if key is not None:
             f = match_finding(self.prop, key)
             if f:
-                txt = "%s [%s]" % (f["what"], json.dumps(key, sort_keys=True))
+                txt = "%s [%s]" % (f["what"], json.dumps(f["key"], sort_keys=True))
                 if txt not in self.known:
                     self.known.append(txt)
+                self.cov.setdefault("known_finding_hits", []).append(key)
                 return False
         os.makedirs(os.path.join(REPLAYS, self.prop), exist_ok=True)
         path = os.path.join(REPLAYS, self.prop, "%s_%d_%d.txt" % (self.tier, self.seed, len(self.violations)))
